@@ -122,10 +122,27 @@ def rule2(ctx, v):
     lp_push = lib.loop_containing(f, pushes[0]) if pushes else None
     ctx.ob('C06.2', 'both loops bounded by n', len(bounds) >= 2 and lp_pop is not None and lp_push is not None,
            'pop loop and push loop both run i < n with the same n', loc=f.loc)
-    for p in pushes:
-        reach = f.reachable_from(f.entry_inst(), blocked=pops + pushes, include_start=True)
-        # zero sleepers: n == 0 -> neither; otherwise push unreachable without pops
-        ok = p not in f.reachable_from(f.entry_inst(), blocked=pops, include_start=True) or True
+    # waiting only as long as sleepers are owed: every loop that polls shared state (a pop, or a volatile load)
+    # is nested in a loop bounded by n, so that n == 0 (a barrier for one participant) never waits
+    def bounded(li):
+        while li is not None and li >= 0:
+            L = f.loops[li]
+            for a, b in L['exits']:
+                t = f.blocks[a].insts[-1]
+                if t.op == 'br' and 'cond' in t.d and any(
+                        ic.op == 'icmp' and same_value(f, ic.ops[1], n) and ic.id in [c for c, _p in lib.cond_chain(f, ic.id)] and
+                        t.d['cond'] in [c for c, _p in lib.cond_chain(f, ic.id)] for ic in bounds):
+                    return True
+            li = L['parent']
+        return False
+    polls = [i for i in f.order if (i in pops) or (i.op == 'load' and i.volatile)]
+    for i in polls:
+        li = f.loop_of_block(i.block.id)
+        if li is None:
+            continue
+        ctx.ob('C06.2', 'poll of shared state is bounded by n (%s)' % (i.callee or f.field(i) or 'volatile load'), bounded(li),
+               'waiting for sleepers happens only inside the loop that counts the n sleepers owed; with n == 0 the waker '
+               'must not wait for anybody', loc=i.loc)
     ctx.floor('C06.2', 8)
 
 
@@ -191,7 +208,46 @@ def rule4(ctx, v):
     ctx.floor('C06.4', 5)
 
 
+def rule5_wrapper(ctx):
+    ctx.doc('C06.5', 'pthread_barrier_wait (both redirection flavours): the serial indicator of the native barrier '
+            '(MYTH_BARRIER_SERIAL_THREAD) is translated to PTHREAD_BARRIER_SERIAL_THREAD; every other participant gets 0')
+    PTHREAD_SERIAL = -1
+    for wfl, name in (('ld', '__wrap_pthread_barrier_wait'), ('dl', 'pthread_barrier_wait')):
+        w = ctx.view('myth_wrap_pthread.c', roots=[name], stops=('myth_barrier_wait_body', 'myth_should_wrap_pthread'), flavour=wfl)
+        f = ctx.need_fn(w, name)
+        cs = call_sites(f, 'myth_barrier_wait_body')
+        ctx.ob('C06.5', name + ': forwards', len(cs) == 1 and same_value(f, cs[0].args[0], 'a0'), 'forwards the barrier argument', loc=f.loc)
+        if not cs:
+            continue
+        body = cs[0]
+        tests = [ic for ic in f.order if ic.op == 'icmp' and ic.pred in ('eq', 'ne') and same_value(f, ic.ops[0], body.id) and
+                 const_int(ic.ops[1]) == SERIAL]
+        ctx.ob('C06.5', name + ': tests for the native serial value', len(tests) >= 1, 'ret == MYTH_BARRIER_SERIAL_THREAD is tested', loc=body.loc)
+        seen_serial = seen_zero = False
+        for val, anchor in ret_cases(f):
+            if not lib.reaches_point(f, body, anchor):
+                continue
+            k = const_int(val)
+            if k == PTHREAD_SERIAL:
+                seen_serial = True
+                ctx.ob('C06.5', name + ': PTHREAD_BARRIER_SERIAL_THREAD only for the serial participant',
+                       any(f.on_edge(ic.id, ic.pred == 'eq', anchor) for ic in tests), 'translated value on the serial edge', loc=anchor.loc)
+            elif isinstance(val, str) and f.sources(val) == {body.id}:
+                seen_zero = True
+                ctx.ob('C06.5', name + ': body value passed through only when not serial',
+                       any(f.on_edge(ic.id, ic.pred != 'eq', anchor) for ic in tests), 'untranslated value only on the non-serial edge',
+                       loc=anchor.loc)
+            elif k == 0:
+                seen_zero = True
+        ctx.ob('C06.5', name + ': serial participant gets PTHREAD_BARRIER_SERIAL_THREAD', seen_serial,
+               'a path returning PTHREAD_BARRIER_SERIAL_THREAD exists on the wrapped branch', loc=f.loc)
+        ctx.ob('C06.5', name + ': others get zero', seen_zero, 'non-serial participants get the native 0', loc=f.loc)
+    ctx.floor('C06.5', 8)
+
+
 def run(ctx):
+    ctx.unit = 'wrap'
+    rule5_wrapper(ctx)
     for fl in flavours(ctx):
         ctx.unit = fl
         v = ctx.view(NATIVE, roots=['myth_barrier_wait_body', 'myth_wake_many_from_stack', 'myth_block_on_stack'],
@@ -222,6 +278,11 @@ MUTANTS = [
     {'name': 'stack wake gives up on an empty pop', 'expect': 'C06.2',
      'edits': [(SYNC, "    while (!to_wake) {\n      to_wake = myth_sleep_stack_pop_th(s);\n    }\n    to_wake->env = env;\n    to_wake->next = 0;",
                 "    to_wake = myth_sleep_stack_pop_th(s);\n    if (!to_wake) break;\n    to_wake->env = env;\n    to_wake->next = 0;")]},
+    {'name': 'waker waits for a first sleeper regardless of n (seed C06/m2)', 'expect': 'C06.2',
+     'edits': [(SYNC, "  myth_thread_t to_wake_head = 0;\n  myth_thread_t to_wake_tail = 0;\n  long i;\n  for (i = 0; i < n; i++) {\n    myth_thread_t to_wake = 0;\n    while (!to_wake) {\n      to_wake = myth_sleep_stack_pop_th(s);",
+                "  myth_thread_t to_wake_head = 0;\n  myth_thread_t to_wake_tail = 0;\n  long i;\n  while (!s->top) {\n    empty_loop(100);\n  }\n  for (i = 0; i < n; i++) {\n    myth_thread_t to_wake = 0;\n    while (!to_wake) {\n      to_wake = myth_sleep_stack_pop_th(s);")]},
+    {'name': 'pthread wrapper does not translate the serial value (seed C06/m3)', 'expect': 'C06.5',
+     'edits': [('src/myth_wrap_pthread.c', "    if (ret == MYTH_BARRIER_SERIAL_THREAD) {\n      ret = PTHREAD_BARRIER_SERIAL_THREAD;\n    } else {\n      assert(ret == 0);\n    }", "    assert(ret == 0 || ret == MYTH_BARRIER_SERIAL_THREAD);")]},
     {'name': 'second popper: cond broadcast reuses the stack pop', 'expect': 'C06.3',
      'edits': [(SYNC, "static inline int myth_cond_broadcast_body(myth_cond_t * cond) {\n  myth_wake_all_from_queue(cond->sleep_q, 0, 0);",
                 "static inline int myth_cond_broadcast_body(myth_cond_t * cond) {\n  if (!cond) myth_sleep_stack_pop_th((myth_sleep_stack_t *)cond);\n  myth_wake_all_from_queue(cond->sleep_q, 0, 0);")]},
